@@ -3,6 +3,7 @@ package main
 import (
 	"fmt"
 	"go/types"
+	"os"
 	"sort"
 	"strings"
 
@@ -472,11 +473,31 @@ func runC06(c *Check) {
 			sub := cl.Params[0].Name()
 			h := ArgTerm(ss[0], 2)
 			want := sub + "[(len(" + sub + ") - 1)]"
-			ok := h.Op == "phi" && len(h.Args) == 2 && strings.Contains(h.String(), want) && strings.Contains(h.String(), ").Height(")
-			zeroOther := false
-			for _, a := range h.Args {
-				if a.Op == "const" && a.Name == "0" {
+			// every alternative of the height (looking through a helper that computes it) is the
+			// last element's height or 0
+			alts := flattenPhi(h)
+			if h.Op == "call" || h.Op == "extract" {
+				if ls := p.Alternatives(h, 2); len(ls) > 0 {
+					alts = ls
+				}
+			}
+			ok, zeroOther := len(alts) >= 1, false
+			lastSeen := false
+			for _, a := range alts {
+				switch {
+				case a.unconv().Op == "const" && a.unconv().Name == "0":
 					zeroOther = true
+				case a.Op == "phi" && a.Name == "↺":
+				case strings.Contains(a.String(), want) && (strings.Contains(a.String(), ").Height(") || strings.HasSuffix(a.String(), ".Height")):
+					lastSeen = true
+				default:
+					ok = false
+				}
+			}
+			ok = ok && lastSeen
+			if os.Getenv("VERIF_DEBUG_C06") != "" {
+				for _, a := range alts {
+					fmt.Fprintf(os.Stderr, "DBG alt %s\n", trunc(a.String(), 200))
 				}
 			}
 			if ok && zeroOther {
@@ -957,7 +978,10 @@ func runC08(c *Check) {
 			if ret, isR := b.Instrs[len(b.Instrs)-1].(*ssa.Return); isR {
 				t := TermOf(ret.Results[0], &Ctx{Fn: fn})
 				got += t.String() + " | "
-				if t.Op == "bin" && t.Name == "-" && strings.Contains(t.Args[0].String(), "pkg/store.Store).Height(") && strings.Contains(t.Args[1].String(), ".lastHeight") && strings.Contains(t.Args[1].String(), "Load(") {
+				isStoreHeight := func(x *Term) bool {
+					return strings.Contains(x.String(), "pkg/store.Store).Height(") || p.DeepContains(x, func(y *Term) bool { return y.Op == "invoke" && strings.HasSuffix(y.Name, "pkg/store.Store).Height") }, 2)
+				}
+				if t.Op == "bin" && t.Name == "-" && isStoreHeight(t.Args[0]) && strings.Contains(t.Args[1].String(), ".lastHeight") && strings.Contains(t.Args[1].String(), "Load(") {
 					ok = true
 				}
 			}
@@ -1208,11 +1232,13 @@ func runC07(c *Check) {
 			facts := g.NecessaryEdges(nodeSet([]*Node{n}))
 			okInc, okMap := false, false
 			var hInc string
+			var hIncT *Term
 			for _, f := range facts {
 				t := f.Cond
 				if f.Pol && t.Op == "extract" && t.Name == "0" && t.Args[0].IsCall("block.Manager).IsDAIncluded") {
 					okInc = true
 					hInc = t.Args[0].Args[2].String()
+					hIncT = t.Args[0].Args[2]
 				}
 			}
 			for _, f := range facts {
@@ -1221,6 +1247,39 @@ func runC07(c *Check) {
 				}
 			}
 			plus1 := strings.HasSuffix(hInc, " + 1)") && strings.Contains(hInc, "GetDAIncludedHeight(")
+			// … or a counter that starts at cur+1 and is stepped by one per loop cycle, where every
+			// cycle passes a successful increment (so the counter stays cur+1)
+			if !plus1 && hIncT != nil && hIncT.Op == "phi" {
+				start, step, other := false, false, false
+				for _, a := range hIncT.Args {
+					au := a.unconv()
+					switch {
+					case au.Op == "bin" && au.Name == "+" && au.Args[1].unconv().Name == "1" && strings.Contains(au.Args[0].String(), "GetDAIncludedHeight(") && !strings.Contains(au.Args[0].String(), "↺"):
+						start = true
+					case au.Op == "bin" && au.Name == "+" && au.Args[1].unconv().Name == "1" && au.Args[0].Op == "phi" && au.Args[0].Name == "↺":
+						step = true
+					default:
+						other = true
+					}
+				}
+				if ph, ok := hIncT.V.(*ssa.Phi); ok && start && step && !other {
+					var head *Node
+					for cx, m := range g.heads {
+						if cx != nil && cx.Fn == ph.Parent() {
+							if hn := m[ph.Block()]; hn != nil && g.Live()[hn] {
+								head = hn
+							}
+						}
+					}
+					incOK := g.Select(ErrNilEdge(func(t *Term) bool { cv, ok := t.V.(*ssa.Call); return ok && cv.Common().StaticCallee() == incr }))
+					if head != nil && len(incOK) > 0 {
+						leaves := func(x *Node) bool { _, isRet := x.In.(*ssa.Return); return isRet && x.Ctx == head.Ctx }
+						if g.PathAvoiding([]*Node{head}, func(x *Node) bool { return x == head }, orPred(nodeSet(incOK), leaves)) == nil {
+							plus1 = true
+						}
+					}
+				}
+			}
 			inst := fnShort(caller) + " ⟂ increment-guarded"
 			if okInc && okMap && plus1 {
 				c.OK("C07-R3", inst, fnName(caller), p.InstrPos(n.In), "called only after IsDAIncluded("+trunc(hInc, 60)+") = true and the mapping for that height was stored", true)
@@ -1308,10 +1367,21 @@ func ruleStoredDAHeightsProvenance(c *Check, p *Prog) {
 	prefix, _ := constString(p, rootPath+"/pkg/store", "RollkitHeightToDAHeightKey")
 	prefix = strings.Trim(prefix, "\"")
 	// the key as far as it is known statically: Sprintf's format with the constant arguments filled in
-	keyPattern := func(k *Term) string {
+	var keyPattern func(k *Term) string
+	keyPattern = func(k *Term) string {
 		k = k.unconv()
+		switch {
+		case k.Op == "const" && strings.HasPrefix(k.Name, "\""):
+			return strings.Trim(k.Name, "\"")
+		case k.Op == "global" && strings.HasSuffix(k.Name, "RollkitHeightToDAHeightKey"):
+			return prefix
+		case k.Op == "bin" && k.Name == "+" && len(k.Args) == 2:
+			return keyPattern(k.Args[0]) + keyPattern(k.Args[1]) // a key built by concatenation
+		case k.Op == "phi":
+			return "%v"
+		}
 		if !k.IsCall("fmt.Sprintf") || len(k.Args) == 0 || k.Args[0].unconv().Op != "const" {
-			return k.String()
+			return "%v"
 		}
 		f := strings.Trim(k.Args[0].unconv().Name, "\"")
 		args := k.Args[1:]
@@ -1331,18 +1401,10 @@ func ruleStoredDAHeightsProvenance(c *Check, p *Prog) {
 				continue
 			}
 			if ai < len(args) {
-				a := args[ai].unconv()
+				a := args[ai]
 				ai++
-				if a.Op == "const" && strings.HasPrefix(a.Name, "\"") {
-					out.WriteString(strings.Trim(a.Name, "\""))
-					continue
-				}
-				if a.Op == "global" && strings.HasSuffix(a.Name, "RollkitHeightToDAHeightKey") {
-					out.WriteString(prefix)
-					continue
-				}
-				if a.Op == "const" && a.Name == "\""+prefix+"\"" {
-					out.WriteString(prefix)
+				if sub := keyPattern(a); !strings.Contains(sub, "%v") {
+					out.WriteString(sub)
 					continue
 				}
 			}
